@@ -10,8 +10,10 @@ The theorems quantify over *every* schedule `sched : List Act` (`run tid` = the 
 command it is parked before and runs on to its next one; `adv d` = time passes, timers fire; `cancel tid` =
 `task.cancel()` reaches the task at the suspension point of its body it is parked at), every number
 of tasks, every program (bodies may call `tx.commit()` / `tx.rollback()` themselves, any number of times, and go
-on), every initial store.  A block ends in one of the five ways of `Outcome`: the body returned, raised an `Exception`,
-raised a `BaseException` that is not an `Exception`, got `LockedError`, or the task was cancelled inside it.  Property theorems only; the lemmas live in
+on), every initial store.  A block ends in one of the ways of `Outcome`: the body returned, raised an exception object
+of ANY kind `Exc` (an `Exception` or a `BaseException` that is not an `Exception`; an object whose truth value is True -
+every built-in exception - or False: a class defining `__bool__` / `__len__`), got `LockedError`, or the task was cancelled
+inside it.  Property theorems only; the lemmas live in
 `Lemmas/TxSched{Basic,Inv,Locks,Counter,Own}.lean`, the model in `Model/TxSched.lean`, the sequential
 meaning of a body in `Spec/TxBody.lean`.
 -/
@@ -69,10 +71,12 @@ locks, schedules or other tasks: a body is a sequence of segments separated by i
   the end with exactly those results, and the store mutations made by the steps of `i` are exactly: the commit of
   every explicitly committed segment, then the commit of the last segment (`delete_many` of its deletions, `set_many`
   of its overlay) — nothing else, nothing less; the increments made durable are those of these segments.
-* If the caller got the body's own exception — an `Exception` (`raisedBody`) or a `BaseException` that is not an
-  `Exception` (`raisedBase`) —, got `LockedError`, or got `CancelledError` because the task was cancelled while
+* If the caller got the body's own exception `e` (`raised e`, for EVERY kind of exception object `e : Exc`: an
+  `Exception` or a `BaseException` that is not an `Exception`, truthy or FALSY — `bool(e)` False because its class
+  defines `__bool__` / `__len__` —; the caller gets that very kind: the body's `raise e` is where it stopped),
+  got `LockedError`, or got `CancelledError` because the task was cancelled while
   suspended inside the body: the body stopped after an executed part `p` (for the body's own exception: right
-  before that `raise`), and the store mutations made by the steps of `i` are exactly the commits of the segments `p`
+  before that `raise e`), and the store mutations made by the steps of `i` are exactly the commits of the segments `p`
   committed explicitly (`s.done`) — NOTHING of the segment that was open (for a body without explicit commits:
   nothing at all, `interrupted_block_applies_nothing`).
 And the store is nothing but the initial store with the logged mutations applied in order. -/
@@ -83,9 +87,9 @@ theorem own_writes_only (store : Store) (ts : List Task) (hf : FreshTasks ts) (s
     (∀ rs, (w.tasks i).pc = .finished (.returned rs) →
       ∃ s, specBody p0 (w.tasks i).reads {} = .normal s [] ∧ rs = s.results ∧ mineOf w i = s.done ++ commitMuts s ∧
         (w.tasks i).cinc = s.cinc ++ s.pend) ∧
-    (∀ b, (w.tasks i).pc = .finished (if b then .raisedBase else .raisedBody) →
+    (∀ e : Exc, (w.tasks i).pc = .finished (.raised e) →
       specBody p0 (w.tasks i).reads {} = .raised ∧
-      ∃ p rest s, p0 = p ++ .raise b :: rest ∧ specBody p (w.tasks i).reads {} = .normal s [] ∧
+      ∃ p rest s, p0 = p ++ .raise e :: rest ∧ specBody p (w.tasks i).reads {} = .normal s [] ∧
         mineOf w i = s.done ∧ (w.tasks i).cinc = s.cinc) ∧
     (((w.tasks i).pc = .finished .raisedLocked ∨ (w.tasks i).pc = .finished .cancelled) →
       ∃ p rest s, p0 = p ++ rest ∧ specBody p (w.tasks i).reads {} = .normal s [] ∧
@@ -103,17 +107,11 @@ theorem own_writes_only (store : Store) (ts : List Task) (hf : FreshTasks ts) (s
   · intro rs hpc
     have := hctx _ hpc
     simpa only [OWpark, hpc, Done] using this
-  · intro b hpc
+  · intro e hpc
     have := hctx _ hpc
-    cases b
-    · simp only [Bool.false_eq_true, if_false] at hpc
-      simp only [OWpark, hpc, Done] at this
-      obtain ⟨h1, p, rest, s, hp, ⟨r, hr⟩, hs, hm, hci⟩ := this
-      exact ⟨h1, p, r, s, by rw [hp, hr], hs, hm, hci⟩
-    · simp only [if_true] at hpc
-      simp only [OWpark, hpc, Done] at this
-      obtain ⟨h1, p, rest, s, hp, ⟨r, hr⟩, hs, hm, hci⟩ := this
-      exact ⟨h1, p, r, s, by rw [hp, hr], hs, hm, hci⟩
+    simp only [OWpark, hpc, Done] at this
+    obtain ⟨h1, p, rest, s, hp, ⟨r, hr⟩, hs, hm, hci⟩ := this
+    exact ⟨h1, p, r, s, by rw [hp, hr], hs, hm, hci⟩
   · intro hpc
     rcases hpc with hpc | hpc
     · have := hctx _ hpc
@@ -127,10 +125,13 @@ theorem own_writes_only (store : Store) (ts : List Task) (hf : FreshTasks ts) (s
 
 /-- **A block that does not end by returning applies nothing** (rollback is the identity on the store — for every kind
 of exit with an exception).  The body calls no `tx.commit()` itself.  Whatever ends the block other than a normal
-return — the body's own `Exception`, a `BaseException` that is not an `Exception`, `LockedError`, or the cancellation
+return — the body's own exception of whatever kind (`raised e` for every `e : Exc`: an `Exception`, a `BaseException`
+that is not an `Exception`, an exception object whose truth value is False), `LockedError`, or the cancellation
 of the task while it is suspended inside the body (after any number of buffered writes, while waiting for a lock,
 in a sleep) — no step of the task ever mutated the store, under every schedule.  (Seeded changes C03-5 / C05-4 decided
-with `isinstance(exc_value, Exception)` and committed the half-done transaction of a cancelled task.) -/
+with `isinstance(exc_value, Exception)` and committed the half-done transaction of a cancelled task; seeded change C05-9
+decided with the truth value of the exception object, `if exc_value: rollback else: commit`, and committed a body that
+raised a falsy exception.) -/
 theorem interrupted_block_applies_nothing (store : Store) (ts : List Task) (hf : FreshTasks ts) (sched : List Act) (i : Nat)
     (htx : ((World.init store ts).tasks i).isTx = true)
     (hn : NoExplicit ((World.init store ts).tasks i).prog) (o : Outcome) (ho : ∀ rs, o ≠ .returned rs) :
@@ -146,11 +147,8 @@ theorem interrupted_block_applies_nothing (store : Store) (ts : List Task) (hf :
   have h := own_writes_only store ts hf sched i htx
   cases o with
   | returned rs => exact absurd rfl (ho rs)
-  | raisedBody =>
-    obtain ⟨_, p, rest, s, hp, hs, hm, hci⟩ := h.2.1 false hpc
-    exact key p _ s hp hs hm hci
-  | raisedBase =>
-    obtain ⟨_, p, rest, s, hp, hs, hm, hci⟩ := h.2.1 true hpc
+  | raised e =>
+    obtain ⟨_, p, rest, s, hp, hs, hm, hci⟩ := h.2.1 e hpc
     exact key p _ s hp hs hm hci
   | raisedLocked =>
     obtain ⟨p, rest, s, hp, hs, hm, hci⟩ := h.2.2.1 (Or.inl hpc)
@@ -475,14 +473,14 @@ example : ((World.init (fun _ => none) exSetx).run
 /-- a task outside any transaction next to a transaction: its `set` is in the store in the very step, while the
 transaction's own write of the same key waits for the commit -/
 def exMixed : List Task :=
-  [{ isTx := true, mode := .locked, timeout := 40, form := .ctx, prog := [.set 1 5, .nestIn .dec, .incr 0 1, .nestOut, .raise false] },
+  [{ isTx := true, mode := .locked, timeout := 40, form := .ctx, prog := [.set 1 5, .nestIn .dec, .incr 0 1, .nestOut, .raise ⟨false, false⟩] },
    { isTx := false, mode := .fast, timeout := 0, form := .ctx, prog := [.set 1 8, .get 1] }]
 
 example : ((World.init (fun _ => none) exMixed).run [.run 0, .run 0, .run 1, .run 1]).store 1 = some 8 := by decide
 example : (((World.init (fun _ => none) exMixed).run [.run 0, .run 0, .run 1, .run 1]).tasks 0).ov = [(1, 5)] := by decide
 /-- the transaction raises after a nested block: nothing of it reaches the store, the caller gets the body's exception -/
 example : (((World.init (fun _ => none) exMixed).run
-    [.run 0, .run 0, .run 1, .run 1, .run 0, .run 0, .run 0, .run 0, .run 1]).tasks 0).pc = .finished .raisedBody := by decide
+    [.run 0, .run 0, .run 1, .run 1, .run 0, .run 0, .run 0, .run 0, .run 1]).tasks 0).pc = .finished (.raised ⟨false, false⟩) := by decide
 example : mineOf ((World.init (fun _ => none) exMixed).run
     [.run 0, .run 0, .run 1, .run 1, .run 0, .run 0, .run 0, .run 0, .run 1]) 0 = [] := by decide
 example : ((World.init (fun _ => none) exMixed).run
@@ -521,10 +519,50 @@ example : ((World.init exStore1 (exCancel .serializable)).run exCancelSched).sto
 example : (((World.init exStore1 (exCancel .locked)).run (exCancelSched.take 6 ++ [.cancel 1])).tasks 1).pc
     = .finished .cancelled := by decide
 /-- a body that raises a `BaseException` which is not an `Exception`: rolled back like any other -/
-example : (((World.init exStore1 [{ isTx := true, mode := .locked, timeout := 40, form := .ctx, prog := [.incr 0 1, .raise true] }]).run
-    [.run 0, .run 0, .run 0, .run 0]).tasks 0).pc = .finished .raisedBase := by decide
-example : ((World.init exStore1 [{ isTx := true, mode := .locked, timeout := 40, form := .ctx, prog := [.incr 0 1, .raise true] }]).run
+example : (((World.init exStore1 [{ isTx := true, mode := .locked, timeout := 40, form := .ctx, prog := [.incr 0 1, .raise ⟨true, false⟩] }]).run
+    [.run 0, .run 0, .run 0, .run 0]).tasks 0).pc = .finished (.raised ⟨true, false⟩) := by decide
+example : ((World.init exStore1 [{ isTx := true, mode := .locked, timeout := 40, form := .ctx, prog := [.incr 0 1, .raise ⟨true, false⟩] }]).run
     [.run 0, .run 0, .run 0, .run 0]).store 0 = some 1 := by decide
+
+/-- **a body that raises a FALSY exception object** (`bool(exc)` is False: its class defines `__len__` / `__bool__`), an
+`Exception` or a non-`Exception` `BaseException`, in each mode, holding two locks with an increment and a write buffered: the
+caller gets that very exception, no step of the task touched the store (rolled back like any other; premise of
+`interrupted_block_applies_nothing` with `o = .raised ⟨_, true⟩`), the locks are given back and the waiting call commits on
+top of the untouched counter: 1 + 2 -/
+def exFalsy (m : Mode) (base : Bool) : List Task :=
+  [{ isTx := true, mode := m, timeout := 40, form := .dec, prog := [.incr 0 1, .set 1 5, .raise ⟨base, true⟩] },
+   { isTx := true, mode := m, timeout := 40, form := .ctx, prog := [.incr 0 2] }]
+
+def exFalsySched : List Act :=
+  [.run 0, .run 0, .run 0, .run 1, .run 1, .run 0, .run 0, .run 0, .adv 4, .run 1, .run 1, .run 1, .run 1]
+
+example : NoExplicit (exFalsy .locked false)[0].prog := by intro c hc; simp [exFalsy] at hc; rcases hc with rfl | rfl | rfl <;> rfl
+example : ∀ rs, Outcome.raised ⟨false, true⟩ ≠ .returned rs := by intro rs; simp
+example : WithinTimeout (World.init exStore1 (exFalsy .locked true)) exFalsySched :=
+  withinTimeout_of_check _ _ (by intro t ht; simp [exFalsy] at ht; rcases ht with rfl | rfl <;> constructor <;> rfl) _ (by decide)
+/-- before the raise: both writes buffered, both locks held, the other call refused the counter's lock -/
+example : (((World.init exStore1 (exFalsy .locked false)).run (exFalsySched.take 5)).tasks 0).pc = .lockTry 1 9 := by decide
+example : (((World.init exStore1 (exFalsy .locked false)).run (exFalsySched.take 5)).tasks 1).pc = .lockSleep 0 9 4 := by decide
+example : (((World.init exStore1 (exFalsy .locked false)).run (exFalsySched.take 6)).tasks 0).pc
+    = .unlocking [some 0, some 1] (.raised ⟨false, true⟩) := by decide
+/-- what the run ends in: (caller of task 0, store mutations by task 0, its durable increments, counter, key 1, caller of task 1) -/
+def exFalsyEnd (w : World) : PC × List Mut × List (Nat × Int) × Option Int × Option Int × PC :=
+  ((w.tasks 0).pc, mineOf w 0, (w.tasks 0).cinc, w.store 0, w.store 1, (w.tasks 1).pc)
+
+example : exFalsyEnd ((World.init exStore1 (exFalsy .locked false)).run exFalsySched) =
+    (.finished (.raised ⟨false, true⟩), [], [], some 3, none, .finished (.returned [some 3])) := by decide
+example : exFalsyEnd ((World.init exStore1 (exFalsy .locked true)).run exFalsySched) =
+    (.finished (.raised ⟨true, true⟩), [], [], some 3, none, .finished (.returned [some 3])) := by decide
+example : exFalsyEnd ((World.init exStore1 (exFalsy .serializable false)).run
+      [.run 0, .run 0, .run 0, .run 1, .run 1, .run 0, .adv 4, .run 1, .run 1, .run 1, .run 1]) =
+    (.finished (.raised ⟨false, true⟩), [], [], some 3, none, .finished (.returned [some 3])) := by decide
+example : exFalsyEnd ((World.init exStore1 (exFalsy .serializable true)).run
+      [.run 0, .run 0, .run 0, .run 1, .run 1, .run 0, .adv 4, .run 1, .run 1, .run 1, .run 1]) =
+    (.finished (.raised ⟨true, true⟩), [], [], some 3, none, .finished (.returned [some 3])) := by decide
+example : exFalsyEnd ((World.init exStore1 (exFalsy .fast false)).run [.run 0, .run 0, .run 1, .run 1, .run 1]) =
+    (.finished (.raised ⟨false, true⟩), [], [], some 3, none, .finished (.returned [some 3])) := by decide
+example : exFalsyEnd ((World.init exStore1 (exFalsy .fast true)).run [.run 0, .run 0, .run 1, .run 1, .run 1]) =
+    (.finished (.raised ⟨true, true⟩), [], [], some 3, none, .finished (.returned [some 3])) := by decide
 
 /-- **explicit `tx.commit()` in the middle of a body**: task 0 increments, commits, increments again; after the commit it
 holds no lock, so task 1 gets the counter's lock in between and task 0's second `incr` has to wait for it -/
